@@ -96,7 +96,7 @@ impl TestCase {
     /// what binding establishes about an accepted test (C11), for rows of width w
     spec fn wf_w(&self, w: int) -> bool {
         &&& stmts_wf(self.stmts@)
-        &&& stmts_shape(self.stmts@, w, self.cols())
+        &&& stmts_shape(self.stmts@, w, inp_pred(self.cols()))
         &&& wf_indices_of(self.signals@, self.input_indices@, self.expected_indices@, w)
         &&& (forall|c: int| !(self.cols().col_is_input(c) && self.cols().col_is_expected(c)))
         &&& (forall|j: int| 0 <= j < self.read_outputs@.len() ==> (#[trigger] self.read_outputs@[j]) < self.signals@.len())
